@@ -40,7 +40,10 @@ def _tset_stub(it, log):
         log.append(("transform_for", caps if caps is None else list(caps)))
         if key not in variants:
             nm = "base" if key is None else "variant{" + ",".join(sorted(x.name for x in key)) + "}"
-            variants[key] = tuple(SymObj(f"{nm}.{part}", Val.ref(z3.IntVal(it_.ctx.new_id()))) for part in ("fn", "code", "info", "token"))
+            # the base entry is the ORIGINAL function as TransformSet._register records it: an untooled function has neither an
+            # information table nor a token (None, None)
+            variants[key] = tuple((None if key is None and part in ("info", "token") else SymObj(f"{nm}.{part}", Val.ref(z3.IntVal(it_.ctx.new_id()))))
+                                  for part in ("fn", "code", "info", "token"))
         return variants[key]
 
     s = SummaryFn("transform_for", tf)
@@ -176,7 +179,13 @@ def u_synced(c):
             c.prove("apply/variant-for-exactly-the-active-captures", z3.And(*conj))
         c.prove("apply/installed", fn.attrs.get("__code__") is var[1] and fn.attrs.get("__ptera_info__") is var[2] and fn.attrs.get("__ptera_token__") is var[3])
         c.prove("apply/not-discarded", fn.attrs.get("__ptera_discard__") is False)
-        c.prove("apply/self-reference", glb.get(var[3]) is fn and len(glb) == 1)
+        if caps is None:
+            # back on the ORIGINAL code: no trace of the tooling is left on the function (is_tooled(fn) is what tooled() and
+            # Call.problems consult: a function that merely WAS probed must not look tooled) nor in its module
+            c.prove("apply/base/no-trace-left-on-the-function-or-its-globals", "__ptera_info__" not in fn.attrs and "__ptera_token__" not in fn.attrs and len(glb) == 0,
+                    note=f"attrs={sorted(k for k in fn.attrs if k.startswith('__ptera'))} globals={list(glb)}", only=["C05"])
+        else:
+            c.prove("apply/self-reference", glb.get(var[3]) is fn and len(glb) == 1)
         c.prove("apply/registry-told-before-swap", len(reg) == 1 and reg[0][0] is fn and reg[0][1] is oldcode and reg[0][2] is var[1], only=["C05", "C14"])
 
 
